@@ -77,6 +77,7 @@ class FnSpec:
         self.rename = None
         self.from_closure = None
         self.body_post = None
+        self.tail_post = None
     @property
     def key(self):
         h = "" if self.header in ("-", None) else self.header + "::"
@@ -182,6 +183,11 @@ def apply_directive(fs, d, tmpl_name):
         # body_post :: <proof text>   -- the whole body `{ B }` becomes `{ let __r = { B }; <proof text> __r }`: a proof hint
         # about the function's result that does not depend on any statement of the body staying as it is
         fs.body_post = rest.lstrip(": ").strip()
+    elif kw == "tail_post":
+        # tail_post :: <proof text>  -- the body's tail expression E becomes `let __r = E; <proof text> __r` in the SAME scope
+        # as the statements before it (so ghost captures made by `before` hints are visible); like body_post it does not
+        # depend on what E is
+        fs.tail_post = rest.lstrip(": ").strip()
     elif kw == "from_closure":
         # from_closure <let-variable> :: <new fn name> :: <state var>: <state param type> :: <Self type> :: <return type>
         f = [x.strip() for x in rest.split(" :: ")]
@@ -1305,6 +1311,39 @@ def instantiate_fn(fs, item, em):
                 raise GenError("%s: anchor %r is ambiguous" % (fnkey, anchor))
             p = idxs[nth] if kind == "before" else idxs[nth] + alens[nth]
             edits.append((p, p, (" " if kind == "after" else "") + atext.strip() + ("\n        " if kind == "before" else "")))
+        if fs.tail_post:
+            # tail expression = everything after the last top-level `;` of the body
+            q = sh.body_open + 1
+            last_semi = None
+            while q < sh.body_close:
+                if toks[q].kind == "punct" and toks[q].text in OPEN:
+                    q = match_close(toks, q) + 1
+                    continue
+                if toks[q].text == ";":
+                    last_semi = q
+                q += 1
+            t0 = (last_semi + 1) if last_semi is not None else sh.body_open + 1
+            # skip block statements (`if .. {..} [else ..]`, `for/while/loop/match .. {..}`) that precede the tail expression
+            while t0 < sh.body_close and toks[t0].kind == "ident" and toks[t0].text in ("if", "for", "while", "loop", "match"):
+                q = t0
+                while True:
+                    while q < sh.body_close and toks[q].text != "{":
+                        if toks[q].text in ("(", "["):
+                            q = match_close(toks, q)
+                        q += 1
+                    q = match_close(toks, q) + 1
+                    if q < sh.body_close and toks[q].text == "else":
+                        q += 1
+                        continue
+                    break
+                if q >= sh.body_close:
+                    break           # the block statement IS the tail expression
+                t0 = q
+            if t0 >= sh.body_close:
+                degraded.append("tail_post: the body has no tail expression")
+            else:
+                edits.append((toks[t0].start, toks[t0].start, "let __r = "))
+                edits.append((toks[sh.body_close - 1].end, toks[sh.body_close - 1].end, "; " + fs.tail_post + " __r"))
         if fs.body_post:
             bo_t, bc_t = toks[sh.body_open], toks[sh.body_close]
             edits.append((bo_t.start, bo_t.start, "{ let __r = "))
